@@ -255,8 +255,20 @@ func main() {
 		}
 		// mix the classes so that the case files the driver cuts are of similar size
 		e.Rnd.Shuffle(len(specs), func(i, j int) { specs[i], specs[j] = specs[j], specs[i] })
+		// class fault (round 8), drawn and placed AFTER everything else so that the seeds and the order of the older
+		// classes are what they were: inner-tree histories with ReplaceOrInsert calls that panic in Less and are recovered
+		if !(e.Search && e.Focus == "") {
+			for _, v := range []vol{{"I/2/fault", 6, 80}, {"I/3/fault", 5, 60}, {"I/4/fault", 4, 50}, {"I/8/fault", 3, 30}} {
+				if e.Search && !sameFamily(v.class, e.Focus) {
+					continue
+				}
+				for i, n := 0, e.Scale(v.quick, v.thor); i < n; i++ {
+					specs = append(specs, spec{v.class, e.Rnd.Int63()})
+				}
+			}
+		}
 		supervise(e, specs)
-		e.Meta["generator"] = "c03/10"
+		e.Meta["generator"] = "c03/11"
 	})
 }
 
